@@ -2,7 +2,7 @@
    All statements hold for EVERY environment (PEM/X.509 parsers, key-match test, clocks): the section
    variables are universally quantified in the closed lemmas. *)
 From Coq Require Import List NArith ZArith Bool Lia.
-From AnyTLS Require Import Generated GeneratedFacts CertReload.
+From AnyTLS Require Import Generated FactsCert CertReload.
 Import ListNotations.
 Open Scope Z_scope.
 
